@@ -13,6 +13,14 @@ Case kinds (each replayable through execute):
          split_char (+ duplicate_action='first'), read_long_names with / without key_function, plain short names, each
          with as_raw False / True; feature.seqid is a key the object offers; expected = the slice of the record the object
          itself resolves for feature.seqid
+  seqtwin two different FASTA files with the SAME base name and the SAME size in bytes are written into two scratch
+         directories (records in another order / some bases changed / bases moved between records); no index file next
+         to either; sequence(<path string>) calls alternate between the two paths: each returns the bases of the file
+         it names
+  bed12  (case["sub"]) transcripts whose children carry type names that contain one another (exon / coding_exon, UTR /
+         five_prime_UTR, CDS / CDS_part); block and thick featuretype given as str and as list, thick names equal to /
+         contained in / disjoint from / overlapping the block names: blocks and thick range come from exactly the
+         children of the named type(s)
   bed12  (case["deep"]) single-isoform genes: bed12(gene) whose block / thick features are level-2 children
          (gene > transcript > exon/CDS), and bed12(transcript) with CDS / UTR / exons attached through an intermediate
          feature (transcript > protein > CDS)
@@ -32,7 +40,13 @@ RULE = ("seq: references of 2-4 sequences of 1-3000 bases over ACGTN + IUPAC amb
         "disjoint or abutting exons (two exon type names), 0-4 CDS inside them, UTRs, stop codon, intron noise, children "
         "in random file order, transcript extents spanning the blocks or deliberately not (5 shapes), calls by id and by "
         "Feature with block in {exon, [exon], [exon,noncoding_exon], [CDS], absent type} x thick/thin choices x name field "
-        "present/absent x colour; non-trivial = >= 2 blocks or a non-spanning transcript; distinct by case content")
+        "present/absent x colour; non-trivial = >= 2 blocks or a non-spanning transcript; distinct by case content; "
+        "sub: 1-3 GFF3 transcripts of 3-8 children typed exon/coding_exon/UTR/five_prime_UTR/CDS/CDS_part (flat: disjoint "
+        "segments of random type, every named type accompanied by the type whose name contains it; nested: CDS pieces "
+        "inside coding_exon, UTR over exon), 2-4 calls each with block in {name, [name], [name, containing name], names "
+        "of two or three families} x thick {equal, subset, disjoint, the containing/contained name, overlapping} each as "
+        "str or list; seqtwin: 2-4 records of 1-400 bases, twin = reordered / 1-3 bases changed / 1-5 bases moved "
+        "between records at equal file size, 3-7 calls alternating between the two paths")
 REQUIRED = ["len(feature) checked", "sequence() by path compared", "sequence() by pyfaidx.Fasta object compared",
             "sequence() minus strand reverse-complemented", "sequence() minus strand with use_strand=False",
             "sequence(): features from a database", "bed12 calls by id", "bed12 calls by Feature", "bed12 lines compared",
@@ -47,9 +61,25 @@ REQUIRED = ["len(feature) checked", "sequence() by path compared", "sequence() b
             "bed12 deep: lines for a gene compared (candidates are level-2 children)",
             "bed12 deep: lines with >= 2 level-2 blocks compared", "bed12 deep: thick range from level-2 features judged",
             "bed12 deep: block/thick features attached through an intermediate feature",
-            "bed12 deep: ValueError expected and raised"]
+            "bed12 deep: ValueError expected and raised",
+            "twin files: pairs with equal base name and byte size written", "twin files: sequence(path) compared",
+            "twin files: calls on one file after the other file was read", "twin files: records in another order",
+            "twin files: bases changed only", "twin files: bases moved between records",
+            "twin files: first call with no index file next to either file",
+            "bed12 substring names: lines compared", "bed12 substring names: block featuretype given as str",
+            "bed12 substring names: block featuretype given as list", "bed12 substring names: thick featuretype given as str",
+            "bed12 substring names: thick featuretype given as list",
+            "bed12 substring names: thick types equal to the block types judged",
+            "bed12 substring names: thick types contained in the block types judged",
+            "bed12 substring names: thick types disjoint from the block types judged",
+            "bed12 substring names: thick types overlapping with the block types judged",
+            "bed12 substring names: blocks judged while a child of a containing/contained type name is present",
+            "bed12 substring names: thick range judged while a child of a containing/contained type name is present",
+            "bed12 substring names: str block name contained in / containing the str or listed thick name",
+            "bed12 substring names: ValueError expected and raised"]
 
-REQUIRED_CLASSES = ["bed12 deep target=gene", "bed12 deep target=transcript via intermediate", "bed12 deep fmt=gtf",
+REQUIRED_CLASSES = ["bed12 substring names layout=flat", "bed12 substring names layout=nested", "seqtwin order",
+                    "seqtwin bases", "seqtwin move", "bed12 deep target=gene", "bed12 deep target=transcript via intermediate", "bed12 deep fmt=gtf",
                     "seqobj as_raw=True", "seqobj as_raw=False", "single block by id", "bed12 fmt=gff3", "bed12 fmt=gtf", "blocks=0", "blocks=1", "blocks>=2", "non-spanning", "strand -", "strand +"]
 ASSUMPTIONS = [
     "'ascending order' = by start; children selected as blocks or thick features never share a start (tie order is not "
@@ -69,6 +99,11 @@ ASSUMPTIONS = [
     "seqobj: feature.seqid is one of the keys the reader offers; readers opened with as_raw=True hand out plain str: a "
     "call that raises AttributeError on such a reader is counted and not judged (the statement does not name raw "
     "readers); a value that is returned is judged",
+    "sub: like everywhere, a selection (block or thick) in which two children share a start or overlap is not asked; "
+    "'the features of the named type(s)' = children whose featuretype is one of the given names as a whole (a str "
+    "argument names one type)",
+    "seqtwin: both files are complete before the first call and are not touched afterwards; index files pyfaidx writes "
+    "next to them are left where they are between the calls",
     "sequence(): features lie inside the named sequence; alphabet ACGTN plus the IUPAC ambiguity codes, both cases; complement = the standard IUPAC table",
 ]
 QUICK_SHARDS = 4
@@ -80,7 +115,8 @@ def setup(ctx):
 
 
 def execute(ctx, case):
-    return {"seq": run_seq, "bed12": run_bed12, "seqrw": run_seqrw, "seqobj": run_seqobj}[case["kind"]](ctx, case)
+    return {"seq": run_seq, "bed12": run_bed12, "seqrw": run_seqrw, "seqobj": run_seqobj,
+            "seqtwin": run_seqtwin}[case["kind"]](ctx, case)
 
 
 # ---------------------------------------------------------------------------------
@@ -242,6 +278,62 @@ def run_seqrw(ctx, case):
         for p in (path, fai, path + ".new"):
             if os.path.exists(p):
                 os.unlink(p)
+
+
+# ---------------------------------------------------------------------------------
+# seqtwin: two files, same base name, same size, different directories, both given as path strings
+# ---------------------------------------------------------------------------------
+def run_seqtwin(ctx, case):
+    import shutil
+
+    genomes = (case["a"], case["b"])
+    refs = [{name: seq for name, _, seq, _ in g} for g in genomes]
+    dirs = [ctx.tmp(".d%d" % i) for i in range(2)]
+    paths = [os.path.join(d, case["basename"]) for d in dirs]
+    try:
+        for d, p, g in zip(dirs, paths, genomes):
+            os.mkdir(d)
+            with open(p, "w", newline="") as fh:
+                fh.write(M.fasta_text(g))
+        if os.path.getsize(paths[0]) != os.path.getsize(paths[1]) or refs[0] == refs[1] and case["how"] != "order":
+            raise AssertionError("harness: twin files differ in size or not in content")
+        ctx.mon("twin files: pairs with equal base name and byte size written")
+        ctx.mon({"order": "twin files: records in another order", "bases": "twin files: bases changed only",
+                 "move": "twin files: bases moved between records"}[case["how"]])
+        if not any(os.path.exists(p + ".fai") for p in paths):
+            ctx.mon("twin files: first call with no index file next to either file")
+        try:
+            feats = make_features(case["origin"], [c[1:] for c in case["calls"]])
+        except Exception as ex:
+            ctx.violation(case, {"why": "preparing features raised %s" % type(ex).__name__, "exception": repr(ex)})
+            return
+        seen = set()
+        for n, (c, f) in enumerate(zip(case["calls"], feats)):
+            which, name, s, e, strand = c
+            for use_strand in (True, False):
+                want = M.expected_sequence(refs[which][name], s, e, strand, use_strand)
+                try:
+                    got = f.sequence(paths[which]) if use_strand else f.sequence(paths[which], use_strand=False)
+                except Exception as ex:
+                    ctx.violation(case, {"why": "sequence(path) raised %s (two files with the same base name and size in different "
+                                                "directories)" % type(ex).__name__, "exception": repr(ex), "call": n, "slice": c,
+                                         "twin differs by": case["how"]})
+                    return
+                ctx.mon("twin files: sequence(path) compared")
+                if (1 - which) in seen:
+                    ctx.mon("twin files: calls on one file after the other file was read")
+                if got != want:
+                    other = refs[1 - which].get(name, "")
+                    ctx.violation(case, {"why": "sequence(path) differs from bases start..end of the file it names (another file with "
+                                                "the same base name and size in another directory was written / read in this process)",
+                                         "call": n, "slice": c, "use_strand": use_strand, "got": repr(got)[:300], "expected": want[:300],
+                                         "equals the other file's bases": got == M.expected_sequence(other, s, e, strand, use_strand),
+                                         "twin differs by": case["how"], "other file read before": (1 - which) in seen})
+                    return
+            seen.add(which)
+    finally:
+        for d in dirs:
+            shutil.rmtree(d, ignore_errors=True)
 
 
 # ---------------------------------------------------------------------------------
@@ -453,6 +545,8 @@ def one_call(ctx, case, db, ci, c):
         ctx.mon("bed12 ValueError expected and raised")
         if deep:
             ctx.mon("bed12 deep: ValueError expected and raised")
+        if case.get("sub"):
+            ctx.mon("bed12 substring names: ValueError expected and raised")
         return None
     if raised is not None:
         if exp["single"] and c["as"] == "id":
@@ -493,6 +587,20 @@ def one_call(ctx, case, db, ci, c):
             ctx.mon("bed12 deep: thick range from level-2 features judged")
         if deep["via"] and (nb or nt):
             ctx.mon("bed12 deep: block/thick features attached through an intermediate feature")
+    if case.get("sub"):
+        pre = "bed12 substring names: "
+        ctx.mon(pre + "lines compared")
+        ctx.mon(pre + "block featuretype given as %s" % ("str" if isinstance(c["block"], str) else "list"))
+        if M.name_relatives(t["children"], c["block"]):
+            ctx.mon(pre + "blocks judged while a child of a containing/contained type name is present")
+        if c["thick"] is not None:
+            ctx.mon(pre + "thick featuretype given as %s" % ("str" if isinstance(c["thick"], str) else "list"))
+            if exp["thick_present"]:
+                ctx.mon(pre + "thick types %s the block types judged" % M.type_relation(c["block"], c["thick"]))
+                if M.name_relatives(t["children"], c["thick"]):
+                    ctx.mon(pre + "thick range judged while a child of a containing/contained type name is present")
+            if isinstance(c["block"], str) and any(x != c["block"] and (x in c["block"] or c["block"] in x) for x in M._types(c["thick"])):
+                ctx.mon(pre + "str block name contained in / containing the str or listed thick name")
     if exp["thick_present"]:
         ctx.mon("bed12 thickStart/thickEnd judged")
     if exp["single"]:
@@ -566,6 +674,22 @@ def run(ctx):
                                            "text": annotation_text(case)[:600]} if rng.random() < 0.02 else None,
                  cls="bed12 deep target=%s%s" % (case["deep"]["target"], " via intermediate" if case["deep"]["via"] else ""))
         ctx.classes["bed12 deep fmt=" + case["fmt"]] += 1
+    # 1d. two files with the same base name and size
+    for _ in range(ctx.budget(320, 12000)):
+        case = G.twin_case(rng)
+        execute(ctx, case)
+        ctx.case(case, True, sample=case if rng.random() < 0.01 else None, cls="seqtwin " + case["how"])
+    # 2b. bed12 with type names that contain one another
+    for _ in range(ctx.budget(900, 30000)):
+        case = G.substring_case(rng)
+        if not case["calls"]:
+            continue
+        execute(ctx, case)
+        classes, nontrivial = case_classes(case)
+        ctx.case(case, nontrivial, sample={"fmt": case["fmt"], "calls": case["calls"][:2], "text": annotation_text(case)[:600]}
+                 if rng.random() < 0.02 else None, cls="bed12 substring names")
+        for lay in set(t["layout"] for t in case["transcripts"]):
+            ctx.classes["bed12 substring names layout=" + lay] += 1
     # 2. bed12 (transcripts whose block selection is empty are given as Feature here)
     bed_phase(ctx, rng, ctx.budget(3000, 120000), False)
     # 3. bed12 by id for transcripts without block children: last, so that a defect there cannot push other reports
@@ -607,7 +731,10 @@ MANIFEST = {
             "Feature, all block/thick/thin/name/colour choices) is compared field by field with a model written from the "
             "statement, including ValueError for non-spanning blocks and the single-block export; convert.to_bed12 is "
             "judged on the shared fields. bed12 is also asked for single-isoform genes and for transcripts whose CDS/UTR/"
-            "exons hang on an intermediate feature (block/thick features at level 2). The same FASTA path is rewritten "
+            "exons hang on an intermediate feature (block/thick features at level 2), and for transcripts whose children "
+            "carry type names that contain one another with the featuretype arguments given as str and as list. Two "
+            "different FASTA files with the same base name and size in different directories are read alternately by path. "
+            "The same FASTA path is rewritten "
             "between sequence() calls (index removed or left behind, overwrite or replace), and readers opened with "
             "key_function / split_char / read_long_names / as_raw are passed to sequence(). "
             "Held = no executed case disagreed.",
